@@ -26,6 +26,10 @@ pub enum OpKind {
     ParseBack,
     /// stream-level encode in multi-thread mode (the encoding happens on other threads)
     Multi,
+    /// stream-level encode (frames not precomputed), then `Stream::write` into a user sink that fails at
+    /// its k-th operation (k derived from the input seed); observable = the bits accepted before the
+    /// failure and the error
+    FailingWrite,
 }
 
 #[derive(Clone, Debug, PartialEq, Serialize, Deserialize)]
@@ -103,6 +107,25 @@ fn exec_inner(op: &Op) -> Result<Vec<u8>, String> {
                 sink.write_to_byte_slice(&mut b);
                 out.extend_from_slice(&b);
             }
+        }
+        OpKind::FailingWrite => {
+            let s = enc::encode_stream(&v, &samples, ch, bps, rate, block, op.src)?;
+            if s.count_bits() > limit {
+                return Err("oversized".into());
+            }
+            let mut probe = crate::oracle::bits::MinimalSink::new();
+            s.write(&mut probe).map_err(|e| format!("{e:?}"))?;
+            let total = probe.ops.max(1);
+            let k = (op.inp.seed % total as u64) as usize;
+            let mut sink = crate::oracle::bits::MinimalSink::failing_at(k);
+            let r = s.write(&mut sink);
+            out = sink.model.to_bytes();
+            out.extend_from_slice(&(sink.model.len() as u64).to_le_bytes());
+            out.push(match r {
+                Ok(()) => 0,
+                Err(flacenc::error::OutputError::Sink(_)) => 1,
+                Err(_) => 2,
+            });
         }
         OpKind::ParseBack => {
             let s = enc::encode_stream(&v, &samples, ch, bps, rate, block, op.src)?;
@@ -232,7 +255,7 @@ pub fn alpha_pool() -> Vec<u32> {
 }
 
 fn op_strategy(blocks: Vec<usize>, budget: usize) -> BoxedStrategy<Op> {
-    let kind = prop_oneof![5 => Just(OpKind::Stream), 3 => Just(OpKind::Frames), 2 => Just(OpKind::Precomputed), 2 => Just(OpKind::ParseBack), 1 => Just(OpKind::Multi)];
+    let kind = prop_oneof![5 => Just(OpKind::Stream), 3 => Just(OpKind::Frames), 2 => Just(OpKind::Precomputed), 2 => Just(OpKind::ParseBack), 1 => Just(OpKind::Multi), 3 => Just(OpKind::FailingWrite)];
     let window = prop_oneof![1 => Just(None), 5 => proptest::sample::select(alpha_pool()).prop_map(Some), 1 => gen::alpha_bits_strategy().prop_map(Some)];
     (proptest::sample::select(blocks), gen::cfg_strategy(CfgOpts { max_block: 4608, ..Default::default() }), kind, window, src_strategy(), any::<bool>())
         .prop_flat_map(move |(block, mut cfg, kind, window, src, force_lpc)| {
